@@ -193,10 +193,92 @@ func init() {
 					c.Cover("type:" + t.Name)
 				}})
 			}
+			// special witnesses beyond the generated shapes: a chain of 80 distinct struct types, and values
+			// holding pointers into the inside of other values they hold (same address, different type)
+			us = append(us, core.Unit{Name: "special", Cost: 5, Run: func(c *core.Ctx) {
+				chainFull := func() interface{} {
+					root := reflect.New(reflect.TypeOf(zoo.Ch00{}))
+					cur := root
+					for d := 0; d < zoo.ChainDepth; d++ {
+						cur.Elem().Field(0).SetInt(int64(d + 1))
+						if cur.Elem().NumField() < 2 {
+							break
+						}
+						nx := reflect.New(cur.Elem().Field(1).Type().Elem())
+						cur.Elem().Field(1).Set(nx)
+						cur = nx
+					}
+					return root.Interface()
+				}
+				interior := func(order int) interface{} {
+					e := &zoo.Embedded{Base: zoo.Base{Id: 4, Name: "b"}, X: 5}
+					l := []zoo.Inner{{A: 1, S: "x"}, {A: 2, S: "y"}}
+					v := &zoo.Interior{Whole: e, List: l, Again: l, End: 3}
+					if order&1 != 0 {
+						v.First = &e.Base
+					}
+					if order&2 != 0 {
+						v.Elem = &l[0]
+					}
+					return v
+				}
+				type sp struct {
+					name   string
+					typ    reflect.Type
+					wits   []interface{}
+					others []interface{}
+				}
+				sps := []sp{
+					{"chain of 80 struct types", reflect.TypeOf(zoo.Ch00{}), []interface{}{zoo.Ch00{}, &zoo.Ch00{}, chainFull()}, []interface{}{chainFull(), &zoo.Ch00{V: 1}}},
+					{"interior pointers", reflect.TypeOf(zoo.Interior{}), []interface{}{zoo.Interior{}, interior(0), interior(1), interior(2), interior(3)}, []interface{}{interior(0), interior(1), interior(2), interior(3)}},
+				}
+				for _, s := range sps {
+					for wi, w := range s.wits {
+						if !c.Begin() {
+							continue
+						}
+						desc := fmt.Sprintf("%s, witness #%d (%T)", s.name, wi, w)
+						c.Nontrivial(desc)
+						rep := func(stage, kind, msg string) {
+							c.Report(&core.Violation{Stage: stage, Kind: kind, Shape: s.name, Message: msgStrict(msg), Case: desc})
+						}
+						var tm, tmOf map[string]reflect.Type
+						var nm map[string]string
+						if p := core.Catch(func() {
+							tm, nm = hessian.ExtractTypeNameMap(w)
+							tmOf = hessian.TypeMapOf(s.typ)
+						}); p != "" {
+							rep("extract", "panic", p)
+							continue
+						}
+						if r := closureCheck(s.typ, tm, nm); r != "" {
+							rep("closure", "not-closed", r)
+							continue
+						}
+						structs, _ := staticClosure(s.typ)
+						for _, st := range structs {
+							if got, ok := tmOf[st.Name()]; !(ok && got == st) {
+								rep("closure", "TypeMapOf", fmt.Sprintf("TypeMapOf(%v) lacks struct type %v", s.typ, st))
+								break
+							}
+						}
+						c.Outcome("closed")
+						for ui, u := range s.others {
+							if !c.Begin() {
+								continue
+							}
+							c.Res.Transitions++
+							out := roundTripMaps(c, u, fmt.Sprintf("maps from %s; value #%d", desc, ui), "sufficiency:"+s.name, nil, copyTypeMap(tm), copyNameMap(nm))
+							c.Outcome("sufficiency:" + out)
+						}
+					}
+				}
+				c.Cover("special")
+			}})
 			return us
 		},
 		RequireCover: func(string) []string {
-			var l []string
+			l := []string{"special"}
 			for _, t := range zoo.Types {
 				l = append(l, "type:"+t.Name)
 			}
